@@ -116,6 +116,7 @@ class _Reqs:
         from framework import Ctx
         mod = importlib.import_module("rules.C04")
         c = Ctx("C04", self.P, self.ctx.repo, "quick", self.ctx.feature)
+        c.extra["structure_rules_only"] = True      # C04's own "completes" rule includes C08, which requires this fact: no cycle
         mod.run(c)
         bad = [i for i in c.instances if not i["ok"] and i["rule"] in ("index-algebra", "padding", "reset")]
         if bad:
